@@ -401,6 +401,10 @@ def run_check(prop, tier, seed=0, only=None, nproc=None, serial=False, verbose=T
                 known_hits.setdefault(k['id'], [k, 0])[1] += 1
             else:
                 violations.append((label, r))
+        if agg.unconfirmed:
+            harness_errors.append((label, ['%d solver counterexample(s) did not reproduce on the real code (encoding/stub '
+                                           'mismatch or rounding-sensitive model), e.g. clause %s values %s'
+                                           % (len(agg.unconfirmed), agg.unconfirmed[0]['label'], agg.unconfirmed[0]['values'][:10])]))
         if agg.status.get('abort:harness-exception') or agg.status.get('abort:engine-error'):
             harness_errors.append((label, [k for k in agg.reasons if 'harness-exception' in k or 'engine-error' in k][:3]))
     if ex is not None:
